@@ -61,9 +61,17 @@ static bool skipClass(const Cfg& c, const Expect& e) {
   if (cls == "nonprintable" || cls.compare(0, 12, "partial-null") == 0 || cls == "unlisted" ||
       cls == "listed-replacement" || cls == "partial-replacement") return true;
   if (c.fs.t->kind == rc::K_WDAY && cls == "out-of-range") return true;
-  // divisor beyond the 24 bit exactness limit of the float arithmetic (statement: quantifier)
-  if (e.numeric && e.relTol) return true;
   return false;
+}
+
+// |raw| >= 2^24 with a divisor: beyond the 24 bit exactness limit of binary32 arithmetic the statement does not demand
+// the identical bytes, but the re-encoded raw value must stay within that arithmetic's error (2^-22 relative + 1)
+static bool bigClass(const Expect& e) { return e.numeric && e.relTol; }
+static bool withinFloatDrift(const Cfg& c, rc::i128 v1, const vector<uint8_t>& enc, rc::i128* v2) {
+  if (static_cast<int>(enc.size()) != c.fs.t->bytes) return false;
+  if (rc::decodeInt(c.fs, enc.data(), v2) != rc::IC_VALID) return false;
+  rc::i128 d = rc::iabs(*v2 - v1);
+  return (d - 1) * ((rc::i128)1 << 22) <= rc::iabs(v1);
 }
 
 // ---- (a) decode -> encode ------------------------------------------------------------------------
@@ -119,7 +127,23 @@ static string roundTrip(const Cfg& c, const uint8_t* raw, int n, bool log, strin
       return "";
     }
   }
+  if (rc2 != 0 && bigClass(e)) {
+    // the text may exceed the type's range by the float error: a rejection is then consistent with range-safe writing
+    rc::i128 slack = rc::iabs(e.raw) / ((rc::i128)1 << 22) + 1;
+    if (e.raw + slack > t.hi || e.raw - slack < t.lo) {
+      g_cnt["a_judged"]--; g_cnt["a_open_class_skipped"]++;
+      if (log) say("at the edge of the type's range beyond 24 bit exactness: rejection admissible", &enc, rc2, "");
+      return "";
+    }
+  }
   if (rc2 != 0) { say("the decoded text is rejected", &enc, rc2, "text-rejected"); return "text-rejected"; }
+  if (bigClass(e)) {
+    rc::i128 v2 = 0;
+    bool ok = withinFloatDrift(c, e.raw, enc, &v2);
+    if (!ok || log) say("raw " + rc::i128str(e.raw) + " re-encoded as " + rc::i128str(v2) + ": must stay within 2^-22 relative + 1",
+                        &enc, rc2, ok ? "" : "value-drift");
+    return ok ? "" : "value-drift";
+  }
   if (t.kind == rc::K_IEEE) {
     // lossy: the re-encoded value may differ by the printed precision (one unit of the last printed digit)
     if (enc.size() != 4) { say("length differs", &enc, rc2, "bytes-differ"); return "bytes-differ"; }
@@ -242,6 +266,11 @@ static string textTrip(const Cfg& c, const string& text, bool log, string* detai
     return ok ? "" : "value-drift";
   }
   ok = b1 == b2;
+  if (!ok) {
+    Expect e1 = rc::refDecode(c.fs, b1.data(), static_cast<int>(b1.size()));
+    rc::i128 v2 = 0;
+    if (bigClass(e1) && withinFloatDrift(c, e1.raw, b2, &v2)) ok = true;  // beyond 24 bit exactness: bounded drift admitted
+  }
   if (!ok || log) say("encode(decode(encode(t))) must equal encode(t)", ok ? "" : "not-fixed-point", rc2, rc3);
   return ok ? "" : "not-fixed-point";
 }
